@@ -55,6 +55,10 @@ FIRST_MISS = {
  "C14-9": "read counts far beyond anything a pipe holds (2^64-1, exactly to 2^64, ...)",
  "C14-10": "a backlog of hundreds of kilobytes read back in other chunk sizes",
  "C18-10": "branches whose target is the next instruction or the branch itself",
+ "C12-9": "a hook error whose text is empty",
+ "C12-10": "registration lists that overlap with what is registered, or with themselves",
+ "C19-10": "an empty area early in the area list of fuzz cases",
+ "C20-10": "single instructions with only the registers they name (iced's used-register analysis) ever written",
  "C13-9": "small areas in the middle of a page where the heap search starts (added before the first attempt)",
  "C13-10": "handler registration in two calls with overlapping lists (added before the first attempt)",
  "C17-9": "all stack-search candidates below 2^32 occupied (added before the first attempt)",
